@@ -68,7 +68,10 @@ def dollar_quote_literal(text: str) -> str:
     quote = '$$'
     qq = 0
 
-    while quote in text:
+    # The closing marker must not match before the end of the text,
+    # which includes matches that start inside the text and finish
+    # inside the closing marker itself (e.g. text ending in "$").
+    while quote in text + quote[:-1]:
         if qq % 16 < 10:
             qq += 10 - qq % 16
 
